@@ -210,6 +210,8 @@ Section Ord.
     Definition louvain_partitions_t_ord (o : OS) (level_fuel sweep_fuel : nat) (g : gstate T A) (weighted : bool)
                (resolution thr : Q) (perms : list (list nat))
       : outcome (list (list (list T)) * bool * OS) :=
+      (* the guard of F23: `.any(..)` over the edge HashMap yields a boolean, no order reaches it *)
+      if negative_weight_guard g weighted then Err InvalidArgument else
       let node_map := node_map_of tltb g in
       do graphu <- convert_graph teqb tltb g weighted node_map;
       let partition := map_node_names_to_hashsets graphu in
